@@ -1,13 +1,13 @@
 SPECIFICATION Spec
 CONSTANTS
-  MaxLeaves = 2
-  MaxLeaves2 = 2
-  Mod = 2
+  MaxLeaves = 4
+  MaxLeaves2 = 3
+  Mod = 12
   Typings = {"O", "I", "M"}
   Tops = {"ret1", "ret2", "assign", "aug", "unpack"}
   Dump = TRUE
-INVARIANT AtMostOnce
 INVARIANT CanonInv
+INVARIANT AtMostOnce
 INVARIANT StopsAtRaise
 INVARIANT AllEvaluated
 INVARIANT LeftToRight
